@@ -189,10 +189,55 @@ func iterationLaws(re *regexp2.Regexp, runes []rune, st func(string)) (detail, i
 	return "", "", len(chain), zeroWidth
 }
 
+// malformedTextLaw: on a string holding malformed UTF-8 the find-all byte spans must be those of the
+// FindNextMatch chain over the decoded text (every malformed byte one U+FFFD of width one), mapped
+// back through an independent index map.
+func malformedTextLaw(re *regexp2.Regexp, s string) (detail, incon string) {
+	im := mon.NewIndexMap(s)
+	chain, err, runaway := mon.Chain(re, im.Runes)
+	if err != nil {
+		if mon.ResourceErr(err) {
+			return "", "chain-" + mon.ErrClass(err)
+		}
+		return "FindNextMatch chain error: " + err.Error(), ""
+	}
+	if runaway {
+		return fmt.Sprintf("the FindNextMatch chain over %q does not end", s), ""
+	}
+	var want [][]int
+	for _, m := range mon.ExpectAll(chain, -1, re.RightToLeft()) {
+		want = append(want, []int{im.Off[m.Index], im.Off[m.Index+m.Length]})
+	}
+	got, err := re.FindAllStringIndex(s, -1)
+	if err != nil {
+		if mon.ResourceErr(err) {
+			return "", "findall-" + mon.ErrClass(err)
+		}
+		return "FindAllStringIndex error: " + err.Error(), ""
+	}
+	if mon.PairsString(got) != mon.PairsString(want) {
+		return fmt.Sprintf("FindAllStringIndex(%q, -1) = %v, the FindNextMatch chain over the decoded text gives the byte spans %v", s, got, want), ""
+	}
+	// and the chain obtained through the string entry point reports the same byte ranges
+	m, err := re.FindStringMatch(s)
+	for i := 0; err == nil && m != nil && i < len(chain); i++ {
+		if b0, bl := m.ByteRange(); b0 != im.Off[chain[i].Index] || bl != im.Off[chain[i].Index+chain[i].Length]-im.Off[chain[i].Index] {
+			return fmt.Sprintf("match #%d of the string chain over %q has ByteRange (%d,%d), the decoded text gives (%d,%d)", i, s, b0, bl, im.Off[chain[i].Index], im.Off[chain[i].Index+chain[i].Length]-im.Off[chain[i].Index]), ""
+		}
+		m, err = re.FindNextMatch(m)
+	}
+	return "", ""
+}
+
 func replayC07(w core.Witness) string {
 	re, err := mon.Compile(w.Pattern, w.Options, w.COpts)
 	if err != nil {
 		return ""
+	}
+	if w.InputHex != "" {
+		re.MatchTimeout = shortTimeout
+		d, _ := malformedTextLaw(re, unhex(w.InputHex))
+		return d
 	}
 	d, _, _, _ := iterationLaws(re, witnessRunes(w), func(string) {})
 	return d
@@ -298,12 +343,27 @@ func runC07(r *core.Run) int {
 				l.Violate(core.Violation{Kind: "iteration-law", Detail: detail, Witness: w})
 				return
 			}
+			// the same text with malformed UTF-8 spliced in
+			if validRunes(runes) && rng.Intn(3) == 0 {
+				s2 := corrupt(string(runes), rng)
+				d2, inc2 := malformedTextLaw(re, s2)
+				l.Eval(1)
+				l.Count("law_malformed-text", 1)
+				if inc2 != "" {
+					l.Inconclusive(inc2)
+				} else if d2 != "" {
+					w := witnessOf(pc, nil, 0)
+					w.InputHex = fmt.Sprintf("%x", s2)
+					l.Violate(core.Violation{Kind: "iteration-law", Detail: d2, Witness: w})
+					return
+				}
+			}
 		}
 		l.NontrivialN(nontriv)
 	})
 	r.Extras["bounds"] = map[string]any{"patterns": nPat, "exhaustive_len": 3, "directed_inputs_per_pattern": nDirected, "n": []int{-1, 0, 1, 2, 3}}
 	return r.Finish(
-		"random ASTs rich in nullable and zero-width shapes (optional loops, anchors, \\G, look-arounds, empty branches), templates and corpus patterns, both directions; per (pattern,input) the FindNextMatch chain is checked for strict advance, disjointness, no repeated empty match, at most len+1 matches, every element equal to an independent naive search from the previous end (one further after an empty match) with \\G bound to that end, and the find-all calls (regexp2 and compat, n in {-1,0,1,2,3}) equal to the chain minus empty matches abutting the preceding match; non-trivial = distinct (pattern,input) with at least two matches in the chain",
+		"random ASTs rich in nullable and zero-width shapes (optional loops, anchors, \\G, look-arounds, empty branches), templates and corpus patterns, both directions; per (pattern,input) the FindNextMatch chain is checked for strict advance, disjointness, no repeated empty match, at most len+1 matches, every element equal to an independent naive search from the previous end (one further after an empty match) with \\G bound to that end, and the find-all calls (regexp2 and compat, n in {-1,0,1,2,3}) equal to the chain minus empty matches abutting the preceding match; for a third of the inputs also with malformed UTF-8 spliced in (every class of malformed sequence): FindAllStringIndex byte spans and the ByteRange of each chain element against the chain over the decoded text through an independent index map; non-trivial = distinct (pattern,input) with at least two matches in the chain",
 		[]string{"the naive-scan hook with a separate \\G origin recomputes each next match"},
 		map[string]int64{"evaluations": 50000, "distinct_nontrivial": 10000, "zero_width_matches_in_chains": 10000, "patterns_rtl": 200})
 }
